@@ -175,7 +175,7 @@ CLAIMED = {
 NOT_REACHED = {
  "C02": "not applicable with the contracts within reach: the property is about string content (which bytes end up in a token, RFC 7950 indentation stripping) inside the lexer state functions, which communicate through a channel and function values and range over strings -- outside the go/ssa subset govc translates, and content equalities need a sequence theory the installed solvers do not decide reliably. The cursor functions the lexer is built on are proved under C16. DESIGN.md section 13.",
  "C03": "not applicable with the contracts within reach: the statement-to-node mirroring is implemented by closures over reflect generated at init; reflection results are opaque to the memory model, so no contract can express that each substatement lands in its field. Only Modules.add's 'modules and submodules only' clause is proved (counted under C13). DESIGN.md section 13.",
- "C18": "not reached: the single-call 'failure leaves no trace' frames live on Type.resolve and Modules.Parse, which have no discharged contract; batch-vs-incremental equality is relational and outside this family. A known defect (YangType stored before a failing restriction is reported) is described in DESIGN.md section 5.",
+ "C18": "not applicable with the contracts within reach: two thirds of the statement relate whole runs (processing twice vs once, incremental vs batch loading), which contract-based verification of single calls cannot state; the single-call part (a failed load leaves no trace) lives on Modules.Parse, whose body is an unknown call into the reflection builder, so no frame can be proved across it. One defect of this property (a type resolved with errors came out clean on the second run) was found, repaired (fix 5ab493d) and is guarded by the two-run comparison of the C09 stand-in. DESIGN.md section 13.",
 }
 
 def main():
